@@ -84,6 +84,10 @@ pub struct LoopSim {
     victim_down_at: Option<u64>,
     victim_repaired: bool,
     timeout_ms: u64,
+    idle_left: u32,
+    classic_since: Option<u64>,
+    last_ack_rx: u64,
+    last_ka: Vec<u64>,
     c: std::collections::HashMap<&'static str, u64>,
 }
 
@@ -120,7 +124,8 @@ impl LoopSim {
             path: vec![], rtt: vec![], group: None, registered: vec![], pending: VecDeque::new(), ack_buf: vec![],
             rx_seqs: Default::default(), rx_count: 0, last_reply_at: vec![], cur_addr: vec![],
             next_seq: 5000, pkt_ctr: 0, client_idx: 0, steps_done: 0, steps_total: 3000, victim_down_at: None,
-            victim_repaired: false, timeout_ms: 5000, c: Default::default(),
+            victim_repaired: false, timeout_ms: 5000, idle_left: 0, classic_since: None, last_ack_rx: 0, last_ka: vec![],
+            c: Default::default(),
         }
     }
 
@@ -172,7 +177,9 @@ impl LoopSim {
             "data" => o["seq"] = json!(get_srt_sequence_number(b).map(|s| s as i64).unwrap_or(-1)),
             "ka" => {
                 o["ts"] = json!(extract_keepalive_timestamp(b).map(|t| t as i64 - T0 as i64).unwrap_or(-1));
-                o["ext"] = json!(extract_keepalive_conn_info(b).is_some());
+                let info = extract_keepalive_conn_info(b);
+                o["ext"] = json!(info.is_some());
+                o["kw"] = json!(info.as_ref().map(|i| i.window as i64).unwrap_or(-1));
                 o["std10"] = json!(b.len() >= 10 && b[0] == 0x90 && b[1] == 0x00);
             }
             "reg1" | "reg2" => {
@@ -274,6 +281,9 @@ impl LoopSim {
                     rx.push(json!({"l": r.link as i64 + 1, "cls": cls, "len": r.bytes.len(), "dig": dig(&r.bytes),
                                    "port": r.to.port()}));
                     self.last_reply_at[r.link] = (now - T0) as i64;
+                    if matches!(cls, "srtla_ack" | "srt_ack" | "reg3") {
+                        self.last_ack_rx = now;
+                    }
                     self.bump(match cls {
                         "reg2" => "rx_reg2", "reg3" => "rx_reg3", "ka" => "rx_keepalive_echo", "srtla_ack" => "rx_srtla_ack",
                         "srt_ack" => "rx_srt_ack", "srt_nak" => "rx_srt_nak", "reg_ngp" => "rx_reg_ngp", _ => "rx_other",
@@ -290,6 +300,13 @@ impl LoopSim {
         let mut buf = [0u8; 2048];
         while let Ok((k, a)) = self.receiver.recv_from(&mut buf) {
             let l = self.link_of(&a);
+            if l < self.n && cls_of(&buf[..k]) == "ka" {
+                let prev = self.last_ka[l];
+                if prev != 0 && self.classic_since.is_some_and(|t| t < prev) && self.last_ack_rx < prev {
+                    self.bump("classic_quiet_keepalive_pairs");
+                }
+                self.last_ka[l] = now;
+            }
             if l < self.n {
                 if self.cur_addr[l].is_some_and(|x| x != a) {
                     self.bump("sockets_recreated");
@@ -360,11 +377,15 @@ impl Engine for LoopSim {
         self.steps_done = 0;
         self.victim_down_at = None;
         self.victim_repaired = false;
+        self.idle_left = 0;
+        self.last_ack_rx = 0;
+        self.last_ka = vec![0; self.n];
         self.config = srtla_send::DynamicConfig::new();
         if cfg.get("classic").and_then(Value::as_bool).unwrap_or(false) {
             self.config.set_mode(SchedulingMode::Classic);
         }
         self.config.set_conn_timeout_ms(self.timeout_ms);
+        self.classic_since = if self.config.mode().is_classic() { Some(T0) } else { None };
     }
 
     fn apply(&mut self, ev: &Value) -> Value {
@@ -438,6 +459,7 @@ impl Engine for LoopSim {
             "SetCfg" => {
                 if let Some(m) = ev.get("classic").and_then(Value::as_bool) {
                     self.config.set_mode(if m { SchedulingMode::Classic } else { SchedulingMode::Enhanced });
+                    self.classic_since = if m { Some(self.now()) } else { None };
                 }
                 if let Some(g) = ev.get("guard").and_then(Value::as_bool) {
                     self.config.set_stall_deselect(g);
@@ -481,7 +503,24 @@ impl Engine for LoopSim {
                 }
             }
         }
+        if self.idle_left > 0 {
+            self.idle_left -= 1;
+            let d = rng.random_range(150..700);
+            let d = match self.pending.iter().map(|r| r.at).min() {
+                Some(at) if at > now => d.min(at - now),
+                _ => d,
+            };
+            return Some(json!({"ev": "Advance", "d": d.max(1)}));
+        }
         let r = rng.random_range(0..1000);
+        if !outage && rng.random_range(0..250) == 0 {
+            // the client pauses for a few seconds (no data, so soon no ACKs either)
+            self.idle_left = rng.random_range(8..16);
+            self.bump("idle_periods");
+            if rng.random_range(0..2) == 0 {
+                return Some(json!({"ev": "SetCfg", "classic": rng.random_range(0..3) != 0}));
+            }
+        }
         if r < 4 && !outage {
             return Some(match rng.random_range(0..2) {
                 0 => json!({"ev": "SetCfg", "classic": rng.random_range(0..2) == 0}),
